@@ -791,7 +791,8 @@ static void emit_live(void) {
         uint8_t key[4];
         kdf_key_ptr = key;
         polyseed_keygen(s, 0, sizeof key, key);
-        ev_t* k = nev > save_nev ? &evq[nev - 1] : NULL;
+        ev_t* k = NULL;      /* the probe's KDF call (other dependency calls, e.g. a wipe of the salt, may follow it) */
+        for (int q = save_nev; q < nev; ++q) if (evq[q].kind == EV_KDF) { k = &evq[q]; break; }
         uint64_t bd = polyseed_get_birthday(s);
         unsigned ft = polyseed_get_feature(s, 0xffffffffu);
         int enc = polyseed_is_encrypted(s);
